@@ -135,6 +135,8 @@ package client
 // address must end in an error there, not in a panic (D24).
 //@   maypanic errUnexpectedAddrType #0
 //@   loop 0 invariant calls("ntp.ClockOffset") == 0
+//@   loop 0 invariant c.Auth.NTSEnabled == old(c.Auth.NTSEnabled)
+//@   loop 0 invariant c.Auth.NTSEnabled ==> c.Auth.NTSKEFetcher.VerifKeys32()
 //@   loop 0 invariant c.prev.cTxTime == before(c.prev.cTxTime) && c.prev.cRxTime == before(c.prev.cRxTime) && c.prev.sRxTime == before(c.prev.sRxTime)
 // Same clauses as for the IP client, over the packet as decoded (lastreadof(udpLayer).Payload is the NTP payload):
 // the offset is computed only from a packet whose source is the queried ISD-AS and host and whose destination is
@@ -150,6 +152,11 @@ package client
 // local readings is stated where the local receive timestamp has just been taken, the obligation at the call.
 //@   callsite mtrcs.pktsReceived.Inc 0 scope cRxTime.Sub(cTxTime1) >= 0
 //@   callsite ntp.ValidateResponseTimestamps 0 requires !interleavedResp ==> t3.Sub(t0) >= 0
+// With NTS the offset is computed only from a payload that nts.ProcessResponse accepted: its authenticator opened under
+// the server-to-client key of the exchange the request was built from, over the payload's own bytes up to the
+// authenticator, and it carries the request's unique identifier.
+//@   callsite ntp.ClockOffset 0 requires c.Auth.NTSEnabled ==> opened() && sameslice(lastOpenKey(), ntskeData.S2cKey) && sameslice(lastOpenAD(), udpLayer.Payload[:ntsresp.VerifAuthPos()]) && len(requestID) == len(ntsresp.UniqueID.ID) && forall(q, 0, len(requestID), requestID[q] == ntsresp.UniqueID.ID[q])
+//@   ensures fetcherinv: c.Auth.NTSEnabled ==> c.Auth.NTSKEFetcher.VerifKeysOK()
 //@   ensures reported: err == nil && c.Filter == nil ==> calls("ntp.ClockOffset") == 1
 //@   ensures accepted: err == nil ==> acceptable(lastreadof(udpLayer).Payload)
 //@   noerror scionLayer.SetSrcAddr, scionLayer.SetDstAddr, path.Dataplane().SetPath, payload.SerializeTo, udpLayer.SerializeTo, spao.ComputeAuthCMAC, e2eExtn.SerializeTo, scionLayer.SerializeTo
